@@ -536,6 +536,10 @@ def _decision(run: Run, ctx, fi: FuncInfo, roles, domain, ops, spec, rule: str) 
             # as many type variables as operands, but two of them read the same operand
             run.fail(rule, fi, fi.node, f"{fi.name} never looks up the type of operand {[k for k, v in roles.items() if v in missing_roles]}: {role_of} - both type variables read the same operand, so e.g. float * int is typed from the int alone", "one lookup_type per operand")
             return
+        raw = [n for n in own_nodes(fi) if isinstance(n, ast.Subscript) and isinstance(n.ctx, ast.Load) and ast.unparse(n.value).endswith("._found_types") and isinstance(n.slice, ast.Attribute) and n.slice.attr in roles]
+        if raw:
+            run.fail(rule, fi, stmt_of(raw[0]), f"{fi.name} reads the type of operand '{raw[0].slice.attr}' straight from the table (self._found_types[..]) instead of through the total lookup: an operand that was never typed (an attribute of an untyped object) raises KeyError where the node should be typed Any", "self.lookup_type(node." + raw[0].slice.attr + ")", key="partial type-table read")
+            return
         raise AnalysisError(f"{fi.name}: operand type variables not recognised ({role_of})")
     bad = []
     n_points = 0
